@@ -79,7 +79,8 @@ def burst_plans(r, tier):
     reach the edge-triggered listener as ONE readiness event, after which nothing more happens on the listener.  Every one
     of them has a complete request waiting and must be served."""
     out = []
-    for k in ([3, 4] if tier == "quick" else [2, 3, 4, 5, 6, 8]):
+    # (70: more arrivals under one readiness edge than any plausible per-round bound of the accept loop — and its double)
+    for k in ([3, 4, 70] if tier == "quick" else [2, 3, 4, 5, 6, 8, 33, 70, 130]):
         for workers in ([2] if tier == "quick" else [1, 2, 4]):
             steps = ["H", "O0", "q1"] + ["O%d" % i for i in range(1, k)] + ["U"]
             exp = []
@@ -309,7 +310,16 @@ def run(pid):
                     # K14: after a spurious dispatch a worker sits in a blocking read on an idle connection; what the clients then see
                     # depends on the race with that connection's read time-out (requests queued behind it hang, or the idle
                     # connection is closed by the time-out and its next request finds EOF)
-                    if got != want and spurious_dispatch(toks):
+                    # … but only deviations that a pinned worker can explain belong to that class: every connection was ACCEPTED and
+                    # registered (the event loop itself is never blocked by K14), and each connection's answers are a prefix of the
+                    # expected ones followed by nothing but HANG / EOF.  A connection that was never accepted, a wrong or re-ordered
+                    # answer is a different violation and is reported.
+                    n_acc = sum(1 for t_ in toks if re.fullmatch(r"A[CF]\d+", t_))
+                    explainable = n_acc >= k and len(got) == len(want) and all(
+                        [x for x in g_ if x.startswith("R")] == w_[:len([x for x in g_ if x.startswith("R")])] for g_, w_ in zip(got, want))
+                    if got != want and n_acc < k:
+                        why = "%d of %d connections were never accepted although each has a complete request waiting (answers %s)" % (k - n_acc, k, "/".join(",".join(g_) for g_ in got if g_ and not g_[0].startswith("R"))[:60])
+                    elif got != want and spurious_dispatch(toks) and explainable:
                         o.extra["known_class_spurious_dispatch_cases"] = o.extra.get("known_class_spurious_dispatch_cases", 0) + 1
                     elif got != want:
                         j = next(x for x in range(len(want)) if x >= len(got) or got[x] != want[x])
